@@ -40,6 +40,7 @@ type NodeOpts struct {
 	Config       backend.Config    // Prefix/Identity defaulted
 	Metrics      *RecMetrics       // default: recording, not forwarding
 	NoIdleYield  bool              // leave the sequencer busy-spinning as in production
+	SkipInit     bool              // do not call SetCurrentRevision (the workload performs the election itself)
 	TrackNotify  bool              // record every notify deposit (C04 conservation)
 	PointHandler func(name string, arg uint64)
 }
@@ -92,7 +93,11 @@ func NewNode(o NodeOpts) *Node {
 	n.bo, n.ho = backend.VerifOwners(b)
 	owners.Store(n.bo, n)
 	owners.Store(n.ho, n)
-	b.SetCurrentRevision(o.StartRev)
+	if !o.SkipInit {
+		b.SetCurrentRevision(o.StartRev)
+	} else {
+		n.Start = 0
+	}
 	return n
 }
 
